@@ -280,6 +280,9 @@ def rand_grid(rng):
     """(base_us, unit_us): grid origin and step; always millisecond aligned."""
     base = floor_ms(rand_instant(rng, 10**12, MAX_US - 10**12))
     unit = rng.choice([1000, 1000, 2000, 10**6, 10**6, 977000, 60 * 10**6, 3600 * 10**6])
+    if rng.random() < 0.02:
+        # the hours before the Unix epoch (1 January 1970 on clocks east of Greenwich): negative instants, mostly not on whole seconds
+        base = floor_ms(-rng.randrange(1, 14 * 3600 * 10**6))
     return base, unit
 
 
